@@ -80,4 +80,130 @@ theorem SendTx.inv_run (evs : List TxEv) (s : SendTx) (h : s.Inv) : (s.run goodT
   | nil => exact h
   | cons e r ih => exact ih _ (SendTx.inv_step s e h)
 
+/-! ## completeness: without a dropped future nothing the application gave is lost -/
+
+/-- delivered-so-far when no future was dropped: everything offered is in the pipe, except the message whose hand-over is
+being awaited right now -/
+def SendTx.Full (s : SendTx) : Prop :=
+  match s.inflight with
+  | some m => s.offered = s.pipe ++ [m]
+  | none => s.pipe = s.offered
+
+theorem SendTx.full_step (s : SendTx) (e : TxEv) (he : e ≠ .cancel) (h : s.Inv) (hf : s.Full) :
+    (s.step goodTx e).Full := by
+  obtain ⟨h1, h2, h3, _, _⟩ := h
+  unfold SendTx.Full at hf ⊢
+  cases e with
+  | cancel => exact absurd rfl he
+  | frame f =>
+    cases hfl : s.inflight with
+    | some m => simp only [SendTx.step, hfl, Option.isSome_some, if_true]; simpa [hfl] using hf
+    | none =>
+      simp only [hfl] at hf
+      simp only [SendTx.step, hfl, goodTx, Option.isSome_none, if_true]
+      simpa [hfl] using hf
+  | last f =>
+    cases hfl : s.inflight with
+    | some m => simp only [SendTx.step, hfl, Option.isSome_some, if_true]; simpa [hfl] using hf
+    | none =>
+      simp only [hfl] at hf
+      simp only [SendTx.step, hfl, goodTx, Option.isSome_none, if_true]
+      simp [h2, hf]
+  | complete =>
+    cases hfl : s.inflight with
+    | none => simp only [SendTx.step, hfl]; simpa [hfl] using hf
+    | some m =>
+      simp only [hfl] at hf
+      simp only [SendTx.step, hfl, SendTx.handOver]
+      simp [h1, hf]
+  | whole m =>
+    cases hfl : s.inflight with
+    | some x => simp only [SendTx.step, hfl, Option.isSome_some, if_true]; simpa [hfl] using hf
+    | none =>
+      simp only [hfl] at hf
+      simp only [SendTx.step, hfl, Option.isSome_none]
+      cases hb : s.busy with
+      | true =>
+        have hne := h3 hb
+        simp only [Bool.false_eq_true, if_false, if_true, hne]
+        simpa [hfl] using hf
+      | false =>
+        simp only [Bool.false_eq_true, if_false, SendTx.handOver]
+        simp [hfl, h1, hf]
+
+theorem SendTx.full_run (evs : List TxEv) (hev : ∀ e ∈ evs, e ≠ .cancel) (s : SendTx) (h : s.Inv) (hf : s.Full) :
+    (s.run goodTx evs).Full := by
+  induction evs generalizing s with
+  | nil => exact hf
+  | cons e r ih =>
+    have he := hev e (by simp)
+    exact ih (fun x hx => hev x (by simp [hx])) _ (SendTx.inv_step s e h) (SendTx.full_step s e he h hf)
+
+/-! ## a dropped future costs at most the one message it was handing over -/
+
+def SendTx.pendingCount (s : SendTx) : Nat := if s.inflight.isSome then 1 else 0
+
+def cancelCount (evs : List TxEv) : Nat := evs.countP (· = .cancel)
+
+theorem SendTx.loss_step (s : SendTx) (e : TxEv) (n : Nat) (h : s.Inv)
+    (hb : s.offered.length ≤ s.pipe.length + n + s.pendingCount) :
+    (s.step goodTx e).offered.length
+      ≤ (s.step goodTx e).pipe.length + (n + if e = .cancel then 1 else 0) + (s.step goodTx e).pendingCount := by
+  obtain ⟨_, _, h3, _, _⟩ := h
+  unfold SendTx.pendingCount at hb ⊢
+  cases e with
+  | cancel =>
+    simp only [SendTx.step, if_true, Option.isSome_none, Bool.false_eq_true, if_false]
+    split at hb <;> omega
+  | frame f =>
+    cases hfl : s.inflight with
+    | some m => simp only [SendTx.step, hfl, Option.isSome_some, if_true] at hb ⊢; simpa [hfl] using hb
+    | none =>
+      simp only [hfl, Option.isSome_none, Bool.false_eq_true, if_false] at hb
+      simp only [SendTx.step, hfl, goodTx, Option.isSome_none, if_true, Bool.false_eq_true, if_false, reduceCtorEq]
+      simpa [hfl] using hb
+  | last f =>
+    cases hfl : s.inflight with
+    | some m => simp only [SendTx.step, hfl, Option.isSome_some, if_true] at hb ⊢; simpa [hfl] using hb
+    | none =>
+      simp only [hfl, Option.isSome_none, Bool.false_eq_true, if_false] at hb
+      simp only [SendTx.step, hfl, goodTx, Option.isSome_none, if_true, Bool.false_eq_true, if_false, reduceCtorEq,
+        Option.isSome_some, List.length_append, List.length_singleton]
+      omega
+  | complete =>
+    cases hfl : s.inflight with
+    | none => simp only [SendTx.step, hfl] at hb ⊢; simpa [hfl] using hb
+    | some m =>
+      simp only [hfl, Option.isSome_some, if_true] at hb
+      simp only [SendTx.step, hfl, SendTx.handOver, Option.isSome_none, Bool.false_eq_true, if_false, reduceCtorEq,
+        List.length_append, List.length_singleton]
+      omega
+  | whole m =>
+    cases hfl : s.inflight with
+    | some x => simp only [SendTx.step, hfl, Option.isSome_some, if_true] at hb ⊢; simpa [hfl] using hb
+    | none =>
+      simp only [hfl, Option.isSome_none, Bool.false_eq_true, if_false] at hb
+      simp only [SendTx.step, hfl, Option.isSome_none]
+      cases hbz : s.busy with
+      | true =>
+        have hne := h3 hbz
+        simp only [Bool.false_eq_true, if_false, if_true, hne, reduceCtorEq]
+        simpa [hfl] using hb
+      | false =>
+        simp only [Bool.false_eq_true, if_false, SendTx.handOver, hfl, Option.isSome_none, reduceCtorEq,
+          List.length_append, List.length_singleton]
+        omega
+
+theorem SendTx.loss_run (evs : List TxEv) (s : SendTx) (n : Nat) (h : s.Inv)
+    (hb : s.offered.length ≤ s.pipe.length + n + s.pendingCount) :
+    (s.run goodTx evs).offered.length
+      ≤ (s.run goodTx evs).pipe.length + (n + cancelCount evs) + (s.run goodTx evs).pendingCount := by
+  induction evs generalizing s n with
+  | nil => simpa [SendTx.run, cancelCount] using hb
+  | cons e r ih =>
+    have := ih (s.step goodTx e) (n + if e = .cancel then 1 else 0) (SendTx.inv_step s e h) (SendTx.loss_step s e n h hb)
+    simp only [SendTx.run, List.foldl_cons] at this ⊢
+    simp only [cancelCount, List.countP_cons, decide_eq_true_eq] at this ⊢
+    omega
+
 end Rzmq
